@@ -28,6 +28,18 @@ class Result:
         self.notes = []
         self.exhaustive = None
 
+    def merge(self, o):
+        self.evaluations += o.evaluations
+        self.nontrivial |= o.nontrivial
+        for k, v in o.dist.items():
+            self.dist[k] = self.dist.get(k, 0) + v
+        for k, v in o.streams.items():
+            self.streams[k] = self.streams.get(k, 0) + v
+        self.violations += o.violations
+        self.corr += o.corr
+        self.known.update(o.known)
+        self.notes += [n for n in o.notes if n not in self.notes]
+
     def count(self, key, n=1):
         self.dist[key] = self.dist.get(key, 0) + n
 
